@@ -116,6 +116,7 @@ def pointName : Pc → String
   | .store => "stored"
   | .count => "counted"
   | .ret => "ret"
+  | .scan => "scanned"
   | .done => "done"
 
 def showResp : Resp → String
